@@ -456,6 +456,15 @@ func (r *RemoteEnd) Reset() {
 	r.s.out.doReset()
 }
 
+// TakeAll returns (and consumes) everything the local side has written so far, also after a reset.
+func (r *RemoteEnd) TakeAll() []byte {
+	r.s.out.mu.Lock()
+	defer r.s.out.mu.Unlock()
+	b := append([]byte(nil), r.s.out.buf.Bytes()...)
+	r.s.out.buf.Reset()
+	return b
+}
+
 // Pending reports how many response bytes are buffered for the remote end.
 func (r *RemoteEnd) Pending() int {
 	r.s.out.mu.Lock()
